@@ -20,9 +20,9 @@ Hypotheses that remain, and why:
   gets it summed twice (`explicit_duplicate_counted_twice`); `collat_total_distinct_explicit` asks for distinct
   references.  The limit, the total, adequacy and the return theorems hold for explicit collateral as well.
 * `0 < amt` for "at least one collateral input" (a collateral percentage of 0 requires none).
-The fee of the transaction is not part of the model: adequacy quantifies over every `fee ≤ max_tx_fee`
-(`builder.fee_buffer` can push the fee of a built transaction above it: known finding KF-C13-fee-buffer of the
-harness, outside this hypothesis). -/
+The fee of the transaction is not part of the model: adequacy quantifies over every `fee ≤ max_tx_fee + fee_buffer`
+(every fee estimate of the builder is a `fee(...)` value, bounded by `max_tx_fee`, plus `builder.fee_buffer`; since the
+repair of KF-C13-fee-buffer the collateral is sized from that bound). -/
 
 namespace Pyc.C13
 open Pyc Pyc.Collateral
@@ -30,7 +30,7 @@ open Pyc Pyc.Collateral
 /-- automatic selection: either nothing was selected (early return) or the collateral is `selectAuto` -/
 theorem auto_collaterals (p : Params) (st : State) (r : Result) (ha : st.explicit = []) (h : run p st = .ok r) :
     r.collaterals = [] ∨
-    ∃ addr amt, st.retAddr = some addr ∧ collateralAmount p st.refScriptSize = some amt ∧
+    ∃ addr amt, st.retAddr = some addr ∧ collateralAmount p st.refScriptSize st.feeBuffer = some amt ∧
       r.collaterals = selectAuto p.cpb amt st.threshold addr st := by
   rcases run_ok p st r h with ⟨_, rfl⟩ | ⟨addr, amt, _, h2, h3, h4⟩
   · exact Or.inl ha
@@ -93,7 +93,7 @@ theorem collat_total (p : Params) (st : State) (r : Result) (t : Int) (h : run p
 
 /-- the collateral amount is covered by Σ collateral inputs (all of it is forfeitable when nothing is returned) -/
 theorem collat_covers (p : Params) (st : State) (r : Result) (addr : Bytes) (amt : Int) (h : run p st = .ok r)
-    (hs : st.hasScripts = true) (hr : st.retAddr = some addr) (hc : collateralAmount p st.refScriptSize = some amt) :
+    (hs : st.hasScripts = true) (hr : st.retAddr = some addr) (hc : collateralAmount p st.refScriptSize st.feeBuffer = some amt) :
     amt ≤ coinSum r.collaterals := by
   rcases run_ok p st r h with ⟨h0 | h0, _⟩ | ⟨addr', amt', _, _, h3, h4⟩
   · rw [hs] at h0; cases h0
@@ -157,7 +157,7 @@ theorem collat_total_distinct_explicit (p : Params) (st : State) (r : Result) (t
 theorem collat_covers_distinct (p : Params) (st : State) (r : Result) (addr : Bytes) (amt : Int)
     (ha : st.explicit = []) (hcons : RefConsistent (st.inputs ++ st.potential ++ st.addrUtxos))
     (h : run p st = .ok r) (hs : st.hasScripts = true) (hr : st.retAddr = some addr)
-    (hc : collateralAmount p st.refScriptSize = some amt) : amt ≤ coinSum (bodyCollateral r.collaterals) := by
+    (hc : collateralAmount p st.refScriptSize st.feeBuffer = some amt) : amt ≤ coinSum (bodyCollateral r.collaterals) := by
   rw [body_is_list p st r ha hcons h]
   exact collat_covers p st r addr amt h hs hr hc
 
@@ -230,11 +230,12 @@ theorem explicit_duplicate_counted_twice :
 the maximum fee: the ledger's `collateral · 100 ≥ fee · percent` -/
 theorem collat_percent (p : Params) (st : State) (r : Result) (t mf : Int) (h : run p st = .ok r)
     (ht : r.total = some t) (hm : maxTxFee p.fee st.refScriptSize = some mf) :
-    t = (mf * p.percent + 99) / 100 ∧ mf * p.percent ≤ t * 100 ∧ t * 100 ≤ mf * p.percent + 99 ∧
-    ∀ fee : Int, 0 ≤ p.percent → fee ≤ mf → fee * p.percent ≤ t * 100 := by
+    t = ((mf + st.feeBuffer) * p.percent + 99) / 100 ∧ (mf + st.feeBuffer) * p.percent ≤ t * 100 ∧
+    t * 100 ≤ (mf + st.feeBuffer) * p.percent + 99 ∧
+    ∀ fee : Int, 0 ≤ p.percent → fee ≤ mf + st.feeBuffer → fee * p.percent ≤ t * 100 := by
   rcases run_ok p st r h with ⟨_, rfl⟩ | ⟨addr, amt, _, _, h3, h4⟩
   · cases ht
-  · obtain ⟨mf', hm', ha⟩ := collateralAmount_eq _ _ _ h3
+  · obtain ⟨mf', hm', ha⟩ := collateralAmount_eq _ _ _ _ h3
     rw [hm] at hm'; cases hm'
     obtain ⟨_, _, _, hr⟩ := finish_ok _ _ _ _ _ _ _ h4
     rcases hr with ⟨_, h', _⟩ | ⟨_, htot, _, _⟩
@@ -250,9 +251,9 @@ theorem collat_percent (p : Params) (st : State) (r : Result) (t mf : Int) (h : 
 total is declared) is at least `percent` % of every fee up to the maximum fee -/
 theorem collat_adequate (p : Params) (st : State) (r : Result) (addr : Bytes) (mf fee : Int) (h : run p st = .ok r)
     (hs : st.hasScripts = true) (hr : st.retAddr = some addr) (hm : maxTxFee p.fee st.refScriptSize = some mf)
-    (hp : 0 ≤ p.percent) (hf : fee ≤ mf) :
+    (hp : 0 ≤ p.percent) (hf : fee ≤ mf + st.feeBuffer) :
     fee * p.percent ≤ (coinSum r.collaterals - (match r.ret with | some o => o.amount.coin | none => 0)) * 100 := by
-  have hc : collateralAmount p st.refScriptSize = some ((mf * p.percent + 99) / 100) := by
+  have hc : collateralAmount p st.refScriptSize st.feeBuffer = some (((mf + st.feeBuffer) * p.percent + 99) / 100) := by
     simp [collateralAmount, hm]
   have hcov := collat_covers p st r addr _ h hs hr hc
   have hmul := Int.mul_le_mul_of_nonneg_right hf hp
@@ -288,7 +289,7 @@ theorem collat_limit (p : Params) (st : State) (r : Result) (h : run p st = .ok 
 /-- a transaction that runs scripts, built with a return address and a positive collateral amount, names at least
 one and at most `max_collateral_inputs` distinct collateral inputs -/
 theorem collat_count (p : Params) (st : State) (r : Result) (amt : Int) (hs : st.hasScripts = true)
-    (hr : st.retAddr.isSome) (hc : collateralAmount p st.refScriptSize = some amt) (hpos : 0 < amt)
+    (hr : st.retAddr.isSome) (hc : collateralAmount p st.refScriptSize st.feeBuffer = some amt) (hpos : 0 < amt)
     (h : run p st = .ok r) :
     1 ≤ (bodyCollateral r.collaterals).length ∧ (bodyCollateral r.collaterals).length ≤ p.maxCollateralInputs := by
   obtain ⟨addr, hr'⟩ := Option.isSome_iff_exists.1 hr
@@ -318,7 +319,7 @@ collateral amount, or a return was due for it (`shouldAdd`) that would not reach
 `while` condition of the code) -/
 theorem collat_needed (p : Params) (st : State) (r : Result) (pre post : List Utxo) (u : Utxo)
     (ha : st.explicit = []) (h : run p st = .ok r) (hsplit : r.collaterals = pre ++ u :: post) :
-    ∃ addr amt, st.retAddr = some addr ∧ collateralAmount p st.refScriptSize = some amt ∧
+    ∃ addr amt, st.retAddr = some addr ∧ collateralAmount p st.refScriptSize st.feeBuffer = some amt ∧
       needMore p.cpb amt st.threshold addr (sumAmounts pre) (subInt (sumAmounts pre) amt) = true := by
   rcases auto_collaterals p st r ha h with h0 | ⟨addr, amt, h1, h2, hc⟩
   · rw [h0] at hsplit; simp at hsplit
@@ -355,7 +356,7 @@ theorem return_threshold (p : Params) (st : State) (r : Result) (o : Output) (h 
 /-- conversely, no return means nothing worth returning: at most max(threshold, 1 ADA) is forfeited beyond the
 collateral amount -/
 theorem no_return_small (p : Params) (st : State) (r : Result) (addr : Bytes) (amt : Int) (h : run p st = .ok r)
-    (hs : st.hasScripts = true) (hr : st.retAddr = some addr) (hc : collateralAmount p st.refScriptSize = some amt)
+    (hs : st.hasScripts = true) (hr : st.retAddr = some addr) (hc : collateralAmount p st.refScriptSize st.feeBuffer = some amt)
     (hn : r.ret = none) :
     coinSum r.collaterals - amt ≤ max st.threshold 1000000 := by
   rcases run_ok p st r h with ⟨h0 | h0, _⟩ | ⟨addr', amt', _, _, h3, h4⟩
